@@ -13,12 +13,12 @@ def hexVal (c : Char) : Option Nat :=
   else if 'A' ≤ c ∧ c ≤ 'F' then some (c.toNat - 'A'.toNat + 10)
   else none
 
-/-- hex string → signed chars -/
+/-- hex string → bytes as `unsigned char` values 0..255 (`-1` is the end of input only) -/
 def unhex : List Char → Option (List Int)
   | [] => some []
   | [_] => some []
   | a :: b :: r => match hexVal a, hexVal b, unhex r with
-    | some x, some y, some t => let v := x * 16 + y; some ((if v ≥ 128 then (v : Int) - 256 else v) :: t)
+    | some x, some y, some t => some (((x * 16 + y : Nat) : Int) :: t)
     | _, _, _ => none
 
 def hexDigit (n : Nat) : Char := if n < 10 then Char.ofNat ('0'.toNat + n) else Char.ofNat ('a'.toNat + n - 10)
